@@ -24,7 +24,11 @@
 //        kind: v valid signature by key for (precommit, vote, round, setid) | f forged (64 bytes derived from variant)
 //              r signed for round+1 | s signed for setid+1 | p signed as a prevote | o signed for another number
 //              k signed by key+1 | z all-zero signature
+//   payload <stage> <hash: 32 bytes hex> <number> <round> <setid>
+//     the bytes a vote signature is made over: built by hand (the encoder this harness signs and verifies with)
+//     and by the implementation's encoder scale.Marshal(FullVote{..})
 // observables:
+//   payload -> <hand-built bytes hex> <scale.Marshal(FullVote) hex>
 //   handle -> <res> <SetFinalisedHash calls> <blk:round:setid of the last call|-> <SetPrecommits calls> <tracked commits> <e1,e2,..|->
 //             <round:setid of the HasFinalisedBlock calls|-> <round:setid:len of the SetPrecommits calls|->
 //   verify -> <res> 0 - 0 0 <e1,..|-> - -
@@ -36,6 +40,7 @@ package grandpa
 
 import (
 	stded25519 "crypto/ed25519"
+	"encoding/binary"
 	"encoding/hex"
 	"encoding/json"
 	"errors"
@@ -315,12 +320,37 @@ func c18Parse(in string) (c c18Case, ok bool) {
 	return c, true
 }
 
+// c18FullVote builds the signed bytes BY HAND (not with the implementation's encoder): stage byte,
+// 32-byte hash, number (4 bytes LE), round (8 bytes LE), set id (8 bytes LE). Every signature of this
+// harness is made and independently verified over these bytes, so the implementation accepts the
+// "v" entries only if its own encoding of FullVote is byte for byte the same. The `payload` cases
+// compare both encoders with the Coq definition GrandpaPayload.vote_payload.
 func c18FullVote(stage Subround, v Vote, round, setID uint64) []byte {
-	msg, err := scale.Marshal(FullVote{Stage: stage, Vote: v, Round: round, SetID: setID})
-	if err != nil {
-		panic(err)
-	}
+	msg := make([]byte, 0, 53)
+	msg = append(msg, byte(stage))
+	msg = append(msg, v.Hash[:]...)
+	msg = binary.LittleEndian.AppendUint32(msg, v.Number)
+	msg = binary.LittleEndian.AppendUint64(msg, round)
+	msg = binary.LittleEndian.AppendUint64(msg, setID)
 	return msg
+}
+
+func c18RunPayload(f []string) string {
+	if len(f) != 6 {
+		return "err:badinput"
+	}
+	hb, err := hex.DecodeString(f[2])
+	if err != nil || len(hb) != 32 {
+		return "err:badinput"
+	}
+	v := Vote{Hash: common.BytesToHash(hb), Number: uint32(vu.UnX(f[3]))}
+	stage := Subround(vu.UnX(f[1]))
+	round, setID := vu.UnX(f[4]), vu.UnX(f[5])
+	enc, err := scale.Marshal(FullVote{Stage: stage, Vote: v, Round: round, SetID: setID})
+	if err != nil {
+		return "err:marshal"
+	}
+	return hex.EncodeToString(c18FullVote(stage, v, round, setID)) + " " + hex.EncodeToString(enc)
 }
 
 func c18Sign(e c18Entry, v Vote, round, setID uint64) [64]byte {
@@ -395,6 +425,9 @@ func c18Class(op string, err error) string {
 }
 
 func c18Run(in string) string {
+	if strings.HasPrefix(in, "payload ") {
+		return c18RunPayload(strings.Split(in, " "))
+	}
 	c, ok := c18Parse(in)
 	if !ok {
 		return "err:badinput"
@@ -775,6 +808,18 @@ func c18Gen(r *vu.RNG, n int, emit func(string)) {
 		c18Exhaustive(emit)
 	}
 	for i := 0; i < n; i++ {
+		if i%50 == 49 { // the signed bytes: both encoders against the Coq definition
+			edge := []uint64{0, 1, 0xff, 0x100, 0xffffffff, 0x100000000, ^uint64(0)}
+			pick := func() uint64 {
+				if r.Chance(1, 2) {
+					return edge[r.Intn(len(edge))]
+				}
+				return r.U64() >> uint(r.Intn(64))
+			}
+			emit(fmt.Sprintf("payload %s %s %s %s %s", vu.X(uint64(r.Intn(3))), hex.EncodeToString(r.Bytes(32)),
+				vu.X(pick()&0xffffffff), vu.X(pick()), vu.X(pick())))
+			continue
+		}
 		emit(c18GenCase(r))
 	}
 }
